@@ -26,6 +26,7 @@ class RefQueue:
 
 class H(Harness):
     ID = 'C04'
+    ANCHOR_FILES = ['epydemic/networkdynamics.py', 'epydemic/process.py', 'epydemic/sir_model_fixed_recovery.py', 'epydemic/sis_model_fixed_recovery.py', 'epydemic/monitor.py', 'epydemic/pulsecoupled.py']
     TIE_IMPORT = kcommon.TIE_IMPORT
     CHECK_FN = kcommon.CHECK_FN
     VO_TARGETS = ['Properties/C04.vo', 'Tie/Kernel.vo']
